@@ -2047,13 +2047,37 @@ func getMethod(n *node) {
 	l := n.level
 	next := getExec(n.tnext)
 
+	// A method value binds its receiver when it is evaluated: the receiver
+	// of a method declared with a value receiver is copied at that time.
+	var recv func(*frame) reflect.Value
+	if m := n.val.(*node); n.recv != nil && n.recv.node != nil && m.kind == funcDecl && !hasPtrRecv(m) {
+		recv = genValueRecv(n)
+	}
+
 	n.exec = func(f *frame) bltn {
 		nod := *(n.val.(*node))
 		nod.val = &nod
 		nod.recv = n.recv
+		if recv != nil {
+			r := recv(f)
+			for r.Kind() == reflect.Ptr {
+				r = r.Elem()
+			}
+			c := reflect.New(r.Type()).Elem()
+			c.Set(r)
+			nod.recv = &receiver{val: c}
+		}
 		getFrame(f, l).data[i] = genFuncValue(&nod)(f)
 		return next
 	}
+}
+
+// hasPtrRecv returns true if the method declaration m has a pointer receiver.
+func hasPtrRecv(m *node) bool {
+	if len(m.child) == 0 || len(m.child[0].child) == 0 || len(m.child[0].child[0].child) == 0 {
+		return false
+	}
+	return m.child[0].child[0].lastChild().kind == starExpr
 }
 
 func getMethodByName(n *node) {
